@@ -191,6 +191,8 @@ func (ev evaluatedValues) isMultiReturnCall() (bool, Call) {
 
 type blockCallback func(statements []Statement, last bool) error
 
+const maxNestingDepth = 10000 // Maximum nesting depth of expressions and statements.
+
 type Parser struct {
 	tokens    []lexer.Token
 	index     int
@@ -198,6 +200,7 @@ type Parser struct {
 	prefix    string
 	currFunc  string
 	currTypes []ValueType
+	depth     int                 // Stores how deep the currently evaluated expression or statement is nested.
 	usedFuncs map[string][]string // Stores which function (key) calls which functions (values).
 	importers []string            // Stores the paths of the files which are currently being parsed and led to this file.
 }
@@ -2215,9 +2218,29 @@ func (p *Parser) evaluateSingleExpression(ctx context) (Expression, error) {
 // in a function because higher precedence means it must be processed further down the chain.
 // Learnt a lot about priority handling from this video https://www.youtube.com/watch?v=aAvL2BTHf60.
 // Precedence is the same as in Go (https://go.dev/ref/spec#Operator_precedence).
+// enterNesting counts the nesting depth of expressions and statements. The parser evaluates nested constructs
+// recursively, a limit makes sure that absurdly deep nesting ends with an error instead of exhausting the stack.
+func (p *Parser) enterNesting(token lexer.Token) error {
+	p.depth++
+
+	if p.depth > maxNestingDepth {
+		return p.atError(fmt.Sprintf("nesting deeper than %d levels", maxNestingDepth), token)
+	}
+	return nil
+}
+
+func (p *Parser) leaveNesting() {
+	p.depth--
+}
+
 func (p *Parser) evaluateUnaryOperation(ctx context) (Expression, error) {
 	nextToken := p.peek()
 	negate := false
+
+	if err := p.enterNesting(nextToken); err != nil {
+		return nil, err
+	}
+	defer p.leaveNesting()
 
 	if nextToken.Type() == lexer.UNARY_OPERATOR {
 		// Use nested if for possible future unary operators.
@@ -2282,6 +2305,11 @@ func (p *Parser) evaluateStatement(ctx context) (Statement, error) {
 
 	token := p.peek()
 	tokenType := token.Type()
+
+	if err := p.enterNesting(token); err != nil {
+		return nil, err
+	}
+	defer p.leaveNesting()
 
 	switch tokenType {
 	case lexer.VAR_DEFINITION:
